@@ -74,7 +74,10 @@ vals = [dt.datetime(2021, 10, 31, 2, 30, tzinfo=ZoneInfo("Europe/Amsterdam")), d
         # the edges of the year range: converting these to a display zone with a non-zero offset overflows, so anything that
         # formats a record on the way to storage shows up as a failure that depends on the setting
         dt.datetime(1, 1, 1, tzinfo=dt.timezone.utc), dt.datetime(1, 1, 1, 3, 0, 0, 1, tzinfo=dt.timezone(dt.timedelta(hours=1))),
-        dt.datetime(9999, 12, 31, 23, 59, 59, 999999, tzinfo=dt.timezone.utc), dt.datetime(9999, 12, 31, 20, tzinfo=dt.timezone(dt.timedelta(hours=-3)))]
+        dt.datetime(9999, 12, 31, 23, 59, 59, 999999, tzinfo=dt.timezone.utc), dt.datetime(9999, 12, 31, 20, tzinfo=dt.timezone(dt.timedelta(hours=-3))),
+        # the other input forms: epoch numbers, ISO text with and without an offset, a naive object -- none of them may be read
+        # through the process's own time zone
+        1600000000, 1600000000.5, -86400 * 365, "2021-07-01T12:30:15", "2021-07-01T12:30:15+05:30", "2021-12-01T00:00:00.000001Z", dt.datetime(2021, 7, 1, 12, 30, 15, 250)]
 recs = [D(v, [v] if v else [], "x", _generated=dt.datetime(2020, 2, 2, tzinfo=dt.timezone.utc)) for v in vals]
 b = io.BytesIO(); w = RecordStreamWriter(b)
 for r in recs: w.write(r)
@@ -130,6 +133,17 @@ def run(tier):
                 forms["epoch"] = (instant(whole)[0] * 86400 + instant(whole)[1])
         except Exception:
             pass
+        # the same value made with the field type's OWN constructors (inherited from datetime): instances of the field type
+        # are stored as they are, so they have to be right when they are made
+        try:
+            forms["ft_fromisoformat"] = ft.datetime.fromisoformat(forms["isotext"])
+            forms["ft_components"] = ft.datetime(d.year, d.month, d.day, d.hour, d.minute, d.second, d.microsecond, d.tzinfo, fold=d.fold)
+            if not d.fold:        # (combine() on a datetime SUBCLASS does not carry the fold flag over: CPython's, not the library's)
+                forms["ft_combine"] = ft.datetime.combine(d.date(), d.timetz())
+        except Exception:
+            pass
+        if kind == "naive" and yc == "y2038":
+            forms["ft_replace_tzinfo_none"] = ft.datetime(aware_in).replace(tzinfo=None)
         for form, value in forms.items():
             exp_inst = in_inst if form != "epoch" else instant(aware_in.replace(microsecond=0))
             try:
